@@ -470,7 +470,7 @@ def gen_h2d_(r, npts, lane):
                 "values": [[r.randint(-64, 640) for _ in range(npts)] for _ in range(nl)], "ops": ops, "operation": operation,
                 "lim": {"xmin": xlo, "xmax": xhi, "ymin": ylo, "ymax": yhi}, "units": units,
                 "quantity_limits": r.random() < 0.15, "tags": ["h2d", "exact", "explicit", style]}
-    kind = r.choice(["auto", "auto", "mixed_limits", "explicit", "degenerate", "degenerate0", "log", "loglin", "empty_explicit",
+    kind = r.choice(["auto", "auto", "mixed_limits", "explicit", "degenerate", "degenerate0", "log", "loglin", "loglin", "empty_explicit",
                      "empty_auto", "nofinite_auto"])
     logx = logy = False
     lim = {"xmin": None, "xmax": None, "ymin": None, "ymax": None}
@@ -515,6 +515,11 @@ def gen_h2d_(r, npts, lane):
         return lo + t * (hi - lo) if which == "min" else hi - t * (hi - lo)
     if kind in ("explicit", "empty_explicit"):
         lim = {"xmin": explicit(fx, "min", logx), "xmax": explicit(fx, "max", logx), "ymin": explicit(fy, "min", logy), "ymax": explicit(fy, "max", logy)}
+    elif kind == "loglin" and r.random() < 0.6:
+        # exactly one logarithmic axis with explicit limits on the *other* axis too: every limit must be read with its own axis' flag
+        lim = {"xmin": explicit(fx, "min", logx), "xmax": explicit(fx, "max", logx), "ymin": explicit(fy, "min", logy), "ymax": explicit(fy, "max", logy)}
+        if r.random() < 0.5:
+            lim[r.choice(["xmin", "xmax", "ymin", "ymax"])] = None
     elif kind == "mixed_limits" or (kind in ("log", "loglin") and r.random() < 0.5):
         for k, fin in (("xmin", fx), ("xmax", fx), ("ymin", fy), ("ymax", fy)):
             if r.random() < 0.5:
